@@ -7,6 +7,8 @@ CONSTANTS
   AllowWAL = TRUE
   FinModes = {"DELETE"}
   AllowSpill = TRUE
+  AllowBeyond = FALSE
+  FixBeyond = TRUE
   AllowNoSync = FALSE
   FixOOB = TRUE
   FixFirstRb = TRUE
